@@ -34,6 +34,8 @@ def check(rep):
     ER.rule_call_forwards(ctx, rid="C07.CALL-FORWARDS", aspects=("args",))
     PR.rule_literal_terms(ctx, rid="C07.TERM-RENDER")
     PR.rule_ident_positions(ctx)
+    # a function whose globals are the dict it is defined in looks its helpers up where `def <experiment name>` rebinds names
+    ER.rule_installed_function(ctx, rid="C07.FRESH-NAMESPACE", strict=False, facets=("namespace",))
     # the evaluator execs the text with separate globals/locals: a helper defined at the module level of the generated text
     # lands in the locals dict, where the generated function (whose globals are the evaluator module's) cannot see it
     from . import liferules as LF
